@@ -22,8 +22,9 @@ InitActive ==
     /\ resAt = [id \in Ids |-> 0]
 \* liveness cfg: stop time instead of constraining (a constraint can hide non-progress cycles)
 NextBounded ==
-    \/ h < MaxH /\ Next
-    \/ h >= MaxH /\ \E dt \in DtSet : EndBlock(dt) /\ count = count'
+    /\ h < MaxH                                            \* the clock stops at MaxH (finite state space) ...
+    /\ Next
+    /\ (count' > count => h + params.exp < MaxH)           \* ... and requests are made early enough to run their course
 SpecBounded == InitActive /\ [][NextBounded]_vars /\ WF_vars(\E dt \in DtSet : EndBlock(dt))
 EveryRequestResolvedBounded == \A id \in Ids : (id <= count) ~> (res[id].status # "NONE")
 =============================================================================
